@@ -288,7 +288,15 @@ func cRecord(r *prng.Rand) CRecord {
 }
 
 // CTypeCount is the number of shared Go types GoValue / GoTarget know.
-const CTypeCount = 19
+const CTypeCount = 20
+
+// CDup has two fields with the same Ion name: marshalling it fails (ion-go panics, the task recovers), which must not
+// leave anything behind for the next user of the package.
+type CDup struct {
+	A string `ion:"name"`
+	B string `ion:"name"`
+	C int    `ion:"age"`
+}
 
 // CNode is a chain: values of this type nest as deep as the chain is long.
 type CNode struct {
@@ -418,6 +426,8 @@ func GoValue(typ int, r *prng.Rand) interface{} {
 		return CAnnArr{Value: [2]int{r.Intn(9), r.Intn(9)}, Ann: cAnn(r)}
 	case 17:
 		return CAnnAny{Value: int64(r.Intn(9)), Ann: cAnn(r)}
+	case 19:
+		return CDup{A: cWord(r), B: cWord(r), C: r.Intn(9)}
 	default:
 		var head *CNode
 		for d := r.Range(150, 400); d > 0; d-- {
@@ -585,6 +595,8 @@ func GoTarget(typ int) interface{} {
 		return new(CAnnArr)
 	case 17:
 		return new(CAnnAny)
+	case 19:
+		return new(CDup)
 	default:
 		return new(CNode)
 	}
